@@ -33,7 +33,7 @@ var commonAssumptions = []string{
 var All = []*Prop{
 	{
 		ID:    "C08",
-		Rules: []*core.Rule{rules.UnwindAgree, rules.UnwindTarget, rules.FinallyEnter, rules.CloseOrder, rules.UncatchableClose, rules.IterPop, rules.IterProto, rules.CtxFields},
+		Rules: []*core.Rule{rules.UnwindAgree, rules.UnwindTarget, rules.FinallyEnter, rules.CloseOrder, rules.UncatchableClose, rules.IterPop, rules.IterProto, rules.CtxFields, rules.StalePtr},
 		Explanation: "R-UNWINDAGREE: the two compile-time walkers of the block stack (break/continue and return) emit, for every block kind, clean-up instructions with the same effect on vm.tryStack / vm.iterStack (effects derived from the exec methods): a kind unwound by one exit kind and not the other skips a finally or leaves an iterator open. " +
 			"R-UNWINDTARGET: the walk that emits the clean-up code of a break/continue leaves its loop over block.outer early only under an identity comparison of the enclosing block with the target block (seeded three times: an early exit decided by the kind of the enclosing block stops a labelled continue at the first inner for-let loop). " +
 			"R-FINALLYENTER ('exactly once'): every store that disarms tryFrame.finallyPos (= the finally block is being entered) comes with catchPos of the same frame disarmed - by a store in the same block or by a dominating test that it is already negative; otherwise an exception thrown inside the finally block is caught by the statement's own catch and the finally block runs twice (found on the pinned tree in the enterFinally instruction). " +
@@ -41,7 +41,7 @@ var All = []*Prop{
 			"R-ITERPOP also requires: an instruction that advances the top iterator with step() takes the record off vm.iterStack on the failure edge before it throws (an iterator whose next() failed is done and must not be closed). " +
 			"R-UNCATCHABLECLOSE ('interrupts and stack overflows run none of them'): iterator-closing code on exceptional paths is guarded by a classification excluding uncatchable payloads. " +
 			"R-ITERPOP ('exactly once'): an instruction that pops an iterator record removes it from vm.iterStack before any call that can throw a JS exception past it. " +
-			"R-CTXFIELDS: try/iterator/reference records pending across a yield are saved, cut, restored and re-based consistently, and a suspension with nothing to save cannot inherit the previous suspension's records.",
+			"R-CTXFIELDS: try/iterator/reference records pending across a yield are saved, cut, restored and re-based consistently, and a suspension with nothing to save cannot inherit the previous suspension's records. R-STALEPTR: a pointer to an element of a slice kept in a struct field (`tf := &vm.tryStack[i]`, `&vm.callStack[i]`, `&vm.iterStack[i]`, sparse items, ...) is not used on any path after a call from which a function that reassigns that field (append) is reachable - the push moves the records and a write through the old pointer is lost (handleThrow: the catch block ran twice; generator return: resumed after the try statement).",
 		Technique:  "sibling table agreement with effects derived from exec methods; controlling-condition classification of cleanup calls; store-before-call ordering; writer/reader field-set agreement",
 		DesignRef:  "DESIGN.md section 4, C08",
 		NotCovered: "'exactly once, innermost to outermost' as a whole, completion-value override by finally, catch/finally frame state machine (catchPos/finallyPos transitions in enterFinally/leaveFinally), generator return through nested finally blocks (enterNextFinallyFrame boundary tests), which getter of the iteration result is read inside which guard",
@@ -250,7 +250,7 @@ var All = []*Prop{
 	},
 	{
 		ID:    "C03",
-		Rules: []*core.Rule{rules.TryPair, rules.Boundary, rules.CtxFields, rules.ScopedState, rules.PairDefer, rules.ExitAgree, rules.GenResume, rules.GrowInit},
+		Rules: []*core.Rule{rules.TryPair, rules.Boundary, rules.CtxFields, rules.ScopedState, rules.PairDefer, rules.ExitAgree, rules.GenResume, rules.GrowInit, rules.StalePtr},
 		Explanation: "goja unwinds by Go panics; handleThrow stops at the first tryPanicMarker frame for payloads it does not convert and trusts the frame's owner to pop it. " +
 			"R-TRYPAIR: every function that acquires a marker frame (pushTryFrame(tryPanicMarker,..) or a wrapper that hands the frame to its caller) registers popTryFrame in a defer before any other call; frames turned into markers in place are tagged and skipped by handleThrow for uncatchable payloads. " +
 			"R-BOUNDARY: in each recover handler that converts an uncatchable payload into an error return, the uncatchable branch reaches leaveAbrupt() guarded only by the empty call stack, other payloads are re-panicked, every normal return passes leave()/clearStack(), and leaveAbrupt drops the job queue and clears the interrupt flag. " +
@@ -258,19 +258,19 @@ var All = []*Prop{
 			"R-SCOPEDSTATE: vm fields that name the activation being run for the duration of one Go call (table: curAsyncRunner) are reset by a deferred closure registered before any further call, so that a panic-borne unwind (interrupt, stack overflow, host panic) cannot leave them set on the idle Runtime. " +
 			"R-PAIRDEFER: the runtime-level acquire/release pairs of a confirmed table (pushToStringStack/popFromStringStack, AsyncContextTracker.Resumed/Exited) release in a defer registered before any further call; a deferred vm.popCtx() in a recovering boundary function runs only if the matching pushCtx() completed. " +
 			"R-EXITAGREE: leaveAbrupt() resets at least the vm/Runtime fields that the normal outermost exit (RunProgram's tail and leave()) resets. R-GENRESUME (see C09): the context pushed by generator.enterNext() is popped before every return of next/nextThrow, so no call-stack entry outlives a resumed generator or async continuation. " +
-			"R-GROWINIT: a slice of records that is grown in place (s = s[:len(s)+k], resurrecting whatever was popped earlier) gets every field of the new element assigned, or the element overwritten, in the same function; today the VM pushes with append(s, T{...}) only (0 sites; positive control = seed C03/g, which forgot tryFrame.exception).",
+			"R-GROWINIT: a slice of records that is grown in place (s = s[:len(s)+k], resurrecting whatever was popped earlier) gets every field of the new element assigned, or the element overwritten, in the same function; today the VM pushes with append(s, T{...}) only (0 sites; positive control = seed C03/g, which forgot tryFrame.exception). R-STALEPTR: a pointer to an element of a slice kept in a struct field (`tf := &vm.tryStack[i]`, `&vm.callStack[i]`, `&vm.iterStack[i]`, sparse items, ...) is not used on any path after a call from which a function that reassigns that field (append) is reachable - the push moves the records and a write through the old pointer is lost (handleThrow: the catch block ran twice; generator return: resumed after the try statement).",
 		Technique:  "panic-safe acquire/release pairing (defer-before-next-call), must-pass-through on the CFG with controlling-condition classification, writer/reader field-set agreement derived from struct declarations",
 		DesignRef:  "DESIGN.md section 4, C03",
 		NotCovered: "that the restored values are the right ones (offset arithmetic), call-depth limit arithmetic, effects of a failed k-th callback inside a builtin on that builtin's own data, 'behaves exactly as a runtime that executed only the completed effects' as a whole",
 	},
 	{
 		ID:    "C09",
-		Rules: []*core.Rule{rules.CtxFields, rules.TryPair, rules.GenResume, rules.MarkerTest, rules.GenState, rules.UncatchableClose},
+		Rules: []*core.Rule{rules.CtxFields, rules.TryPair, rules.GenResume, rules.MarkerTest, rules.GenState, rules.UncatchableClose, rules.StalePtr},
 		Explanation: "Faithful suspension requires that suspend() and resume() move exactly the per-activation state. R-CTXFIELDS derives from the declarations of vm, context, execCtx and tryFrame the set of registers and auxiliary stacks and checks that suspend saves and cuts each stack that resume appends back, that execCtx has a slot for each, and that every positional tryFrame field recorded by pushTryFrame is made relative by suspend and absolute by resume (or recomputed). " +
 			"R-TRYPAIR: the generator/async entry points (generator.next/nextThrow, generatorObject.init/_return, asyncRunner.start) release their marker frame panic-safely, so the runtime and the generator protocol remain usable after an interrupt/stack overflow inside a body. " +
 			"R-GENRESUME: next()/throw() reach the suspended body only by resuming it - enterNext() (which calls vm.resume(&g.ctx)) dominates every return of generator.next/nextThrow, and the saved stacks of execCtx are touched only by vm.suspend/vm.resume (audited read-only exception: captureAsyncStack) - so an injected exception always unwinds through the body's open iterators and finally blocks. " +
 			"R-MARKERTEST: whoever classifies a try frame as an entry marker by catchPos == tryPanicMarker also tests the in-place tag finallyRet == -2 (a generator frame whose finally runs for return() carries the same catchPos). " +
-			"R-GENSTATE: throw()/return() delivered to a generator in suspendedStart store genStateCompleted on every path before leaving (GeneratorResumeAbrupt step 2); when the inner iterator of a yield* throws, the delegation is ended before the exception is thrown into the body. R-GENRESUME also requires vm.popCtx() before every return of generator.next/nextThrow. R-UNCATCHABLECLOSE (see C08): generator.return() closes the iterators the body still has open - dropStacks (truncate without closing) is reserved for uncatchable payloads.",
+			"R-GENSTATE: throw()/return() delivered to a generator in suspendedStart store genStateCompleted on every path before leaving (GeneratorResumeAbrupt step 2); when the inner iterator of a yield* throws, the delegation is ended before the exception is thrown into the body. R-GENRESUME also requires vm.popCtx() before every return of generator.next/nextThrow. R-UNCATCHABLECLOSE (see C08): generator.return() closes the iterators the body still has open - dropStacks (truncate without closing) is reserved for uncatchable payloads. R-STALEPTR: a pointer to an element of a slice kept in a struct field (`tf := &vm.tryStack[i]`, `&vm.callStack[i]`, `&vm.iterStack[i]`, sparse items, ...) is not used on any path after a call from which a function that reassigns that field (append) is reachable - the push moves the records and a write through the old pointer is lost (handleThrow: the catch block ran twice; generator return: resumed after the try statement).",
 		Technique:  "writer/reader field-set agreement derived from struct declarations; panic-safe acquire/release pairing; must-pass-through (dominance) of the resume call; who-may-access on saved-context fields; sibling-test agreement",
 		DesignRef:  "DESIGN.md section 4, C09",
 		NotCovered: "the generator state machine itself (results of next/throw/return sequences), yield* delegation protocol, survival of locals and partially evaluated expressions (stack copy contents), async ordering: history-level semantics",
